@@ -133,11 +133,28 @@ TagLen(s) ==
         IF nm = "" THEN 0 ELSE IF Ch(s, k + 1) = ">" THEN k + 1 ELSE IF Ch(s, k + 1) = "/" /\ Ch(s, k + 2) = ">" THEN k + 2 ELSE 0
     ELSE 0
 IsCompleteTag(t) == TagLen(t) > 0 /\ IsBlank(Drop(t, TagLen(t)))        \* an open tag or a closing tag, followed by spaces only
-(* paragraph text as HTML: complete tags are raw inline HTML, everything else is escaped (the alphabets hold no other inline syntax) *)
-RECURSIVE InlineHtml(_)
-InlineHtml(s) == IF s = "" THEN ""
-                 ELSE IF Ch(s, 1) = "<" /\ TagLen(s) > 0 THEN Take(s, TagLen(s)) \o InlineHtml(Drop(s, TagLen(s)))
-                 ELSE Esc(Ch(s, 1)) \o InlineHtml(Drop(s, 1))
+(* paragraph text as HTML: complete tags are raw inline HTML, a bracketed label that matches a definition (and is not followed by
+   another bracket or a parenthesis) is a shortcut reference link, everything else is escaped (the alphabets hold no other inline syntax).
+   D is the sequence of the document's definitions; the first one with the label wins. *)
+(* link destinations are written percent-encoded where a character may not stand in a URL (the alphabets only produce these three) *)
+RECURSIVE HrefEnc(_)
+HrefEnc(u) == IF u = "" THEN "" ELSE LET c == Ch(u, 1) IN
+              (CASE c = " " -> "%20" [] c = "[" -> "%5B" [] c = "]" -> "%5D" [] OTHER -> Esc(c)) \o HrefEnc(Drop(u, 1))
+RECURSIVE InlineHtml(_, _)
+InlineHtml(s, D) ==
+    IF s = "" THEN ""
+    ELSE IF Ch(s, 1) = "<" /\ TagLen(s) > 0 THEN Take(s, TagLen(s)) \o InlineHtml(Drop(s, TagLen(s)), D)
+    ELSE IF Ch(s, 1) = "[" THEN
+        LET S == {i \in 2..Len(s) : Ch(s, i) \in {"[", "]"}}
+            rb == IF S = {} THEN 0 ELSE CHOOSE i \in S : \A j \in S : i <= j
+            lab == IF rb > 2 /\ Ch(s, rb) = "]" THEN SubSeq(s, 2, rb - 1) ELSE ""
+            C == {i \in DOMAIN D : lab # "" /\ Lower(Trim(D[i].label)) = Lower(Trim(lab))}
+            d == IF C = {} THEN 0 ELSE CHOOSE i \in C : \A j \in C : i <= j IN
+        IF d > 0 /\ Ch(s, rb + 1) \notin {"[", "("}
+        THEN "<a href=\"" \o HrefEnc(D[d].dest) \o "\"" \o (IF D[d].title = "" THEN "" ELSE " title=\"" \o Esc(D[d].title) \o "\"") \o ">"
+             \o InlineHtml(lab, << >>) \o "</a>" \o InlineHtml(Drop(s, rb), D)
+        ELSE "[" \o InlineHtml(Drop(s, 1), D)
+    ELSE Esc(Ch(s, 1)) \o InlineHtml(Drop(s, 1), D)
 HtmlType(r) ==
     LET t == LStrip(r) low == Lower(t)
         nm1 == TagName(Drop(low, 1))
@@ -183,6 +200,57 @@ MarkerOf(r) ==
     [mtype |-> Ch(t, ml), ordered |-> ordered, start |-> IF ordered THEN ToNat(Take(t, ml - 1)) ELSE 0,
      w |-> LeadSp(r) + ml + (IF one THEN 1 ELSE sp),
      rest |-> IF one THEN (IF Ch(after, 1) = " " THEN Drop(after, 1) ELSE after) ELSE Drop(after, sp)]
+
+---------------------------------------------------------------------------
+(* link reference definitions (section 4.7).  They are read from the text of a paragraph when it is complete: as many as stand
+   at its beginning; what is left is the paragraph (possibly nothing).  c is the paragraph's text, lines joined by "\n".
+   A definition: [label]: destination "title" - label without brackets, not blank; between the colon and the destination and
+   between the destination and the title whitespace including at most one line end; the title may span lines; nothing but
+   spaces may follow on the last line.  If what follows the destination on its line is not a valid title the text is not a
+   definition; if the title attempt on the NEXT line fails, the definition ends with the destination's line.
+   (Backslash escapes and brackets inside labels do not occur in the alphabets.) *)
+IndexFrom(s, c, from) == LET S == {i \in from..Len(s) : Ch(s, i) = c} IN IF S = {} THEN 0 ELSE CHOOSE i \in S : \A j \in S : i <= j
+SkipSp(s, i) == i + LeadSp(Drop(s, i - 1))                                    \* first position >= i that holds no space
+SkipWs1(s, i) == LET j == SkipSp(s, i) IN IF Ch(s, j) = "\n" THEN SkipSp(s, j + 1) ELSE j      \* spaces, at most one line end, spaces
+RECURSIVE NonSpaceRun(_, _)
+NonSpaceRun(s, i) == IF i <= Len(s) /\ Ch(s, i) \notin {" ", "\n"} THEN 1 + NonSpaceRun(s, i + 1) ELSE 0
+Balanced(t) == Count(t, "(") = Count(t, ")")
+NoDef == [ok |-> FALSE, len |-> 0, label |-> "", dest |-> "", title |-> ""]
+CloserOf(q) == CASE q = "\"" -> "\"" [] q = "'" -> "'" [] OTHER -> ")"
+ParseDef(c) ==
+    LET rb == IndexFrom(c, "]", 2)
+        label == SubSeq(c, 2, rb - 1)
+        d0 == SkipWs1(c, rb + 2)                                             \* start of the destination
+        angle == Ch(c, d0) = "<"
+        dEnd == IF angle THEN IndexFrom(c, ">", d0 + 1) ELSE d0 + NonSpaceRun(c, d0) - 1
+        dest == IF angle THEN SubSeq(c, d0 + 1, dEnd - 1) ELSE SubSeq(c, d0, dEnd)
+        destOk == /\ d0 <= Len(c)
+                  /\ (IF angle THEN dEnd > 0 /\ Count(dest, "\n") = 0 /\ Count(dest, "<") = 0 ELSE dEnd >= d0 /\ Balanced(dest))
+        p == dEnd + 1                                                        \* first position behind the destination
+        e1 == SkipSp(c, p)                                                   \* end of the destination's line if only spaces follow
+        endsLine == e1 > Len(c) \/ Ch(c, e1) = "\n"
+        t0 == SkipWs1(c, p)                                                  \* where a title would start
+        q == Ch(c, t0)
+        tEnd == IF q \in {"\"", "'", "("} THEN IndexFrom(c, CloserOf(q), t0 + 1) ELSE 0
+        e2 == SkipSp(c, tEnd + 1)
+        titleOk == /\ t0 > p /\ tEnd > 0                                     \* separated from the destination by whitespace, closed
+                   /\ (e2 > Len(c) \/ Ch(c, e2) = "\n")                       \* nothing else on its last line
+                   /\ ~HasSub(SubSeq(c, t0, tEnd), "\n\n")
+        noTitle == [ok |-> TRUE, len |-> IF e1 > Len(c) THEN Len(c) ELSE e1, label |-> label, dest |-> dest, title |-> ""] IN
+    IF ~(Ch(c, 1) = "[" /\ rb > 2 /\ Count(label, "[") = 0 /\ Trim(label) # "" /\ Ch(c, rb + 1) = ":" /\ destOk) THEN NoDef
+    ELSE IF titleOk THEN [ok |-> TRUE, len |-> IF e2 > Len(c) THEN Len(c) ELSE e2, label |-> label, dest |-> dest, title |-> SubSeq(c, t0 + 1, tEnd - 1)]
+    ELSE IF endsLine THEN noTitle
+    ELSE NoDef
+
+(* all definitions at the beginning of a paragraph's text; rest = the lines that remain *)
+RECURSIVE DefsOf(_)
+DefsOf(c) == LET d == ParseDef(c) IN IF c = "" \/ ~d.ok THEN << >> ELSE <<d>> \o DefsOf(Drop(c, d.len))
+RECURSIVE RestAfterDefs(_)
+RestAfterDefs(c) == LET d == ParseDef(c) IN IF c = "" \/ ~d.ok THEN c ELSE RestAfterDefs(Drop(c, d.len))
+RECURSIVE SplitLines(_)
+SplitLines(c) == IF c = "" THEN << >> ELSE LET k == IndexFrom(c, "\n", 1) IN IF k = 0 THEN <<c>> ELSE <<Take(c, k - 1)>> \o SplitLines(Drop(c, k))
+ParaText(lines) == RStrip(Join(lines, "\n"))
+ParaRestLines(lines) == SplitLines(RestAfterDefs(ParaText(lines)))
 
 ---------------------------------------------------------------------------
 (* parser state: st = [open, nodes, tip, tags]                             *)
@@ -233,6 +301,13 @@ NewId(s) == Len(s.nodes) + 1
 
 AddLineTo(s, n, txt, L) == [s EXCEPT !.nodes[n].text = Append(s.nodes[n].text, txt), !.nodes[n].last = L]
 
+(* A line that cannot interrupt a paragraph but could start a block (indented code, an ordered list not starting with 1, an empty
+   list item, an HTML block of kind 7) below text that consists of complete link reference definitions only: the reference reading
+   continues the paragraph (definitions are taken out of it when it is complete); read declaratively the definitions are blocks of
+   their own, no paragraph is open and the line starts its block.  Not settled by the specification text: tagged, not judged. *)
+AfterDefsOnly(s, r) == IF (LeadSp(r) >= 4 \/ IsMarker(r, FALSE) \/ HtmlType(r) = 7) /\ s.tip.k = "para" /\ RestAfterDefs(ParaText(s.nodes[s.tip.node].text)) = ""
+                       THEN {"unsettled-block-start-after-definition"} ELSE {}
+
 (* the text line (nothing started in r): lazy continuation, continuation of the matched paragraph, or a new paragraph *)
 TextLine(s, n, r, pm, L, started) ==
     IF ~started /\ n < Len(s.open) /\ ~IsBlank(r) /\ s.tip.k = "para"
@@ -240,8 +315,9 @@ TextLine(s, n, r, pm, L, started) ==
               \cup (IF \E k \in (n + 1)..Len(s.open) : s.open[k].kind = "quote" /\ s.open[k].ind4 THEN {"lazy-after-indented-quote-content"} ELSE {})
               \cup (IF IsSetextUnderline(r) /\ "item" \in UnmatchedKinds(s, n) THEN {"lazy-line-looks-like-setext-underline"} ELSE {})
               \cup (IF LeadSp(r) >= 4 /\ StartsBlockWhenDeindented(LStrip(r)) THEN {"lazy-indented-line-looks-like-block-start"} ELSE {})
-              \cup (IF LeadSp(r) >= 4 THEN {"continuation-line-indented-4"} ELSE {})]
-    ELSE IF pm THEN [AddLineTo(s, s.tip.node, LStrip(r), L) EXCEPT !.tags = s.tags \cup (IF LeadSp(r) >= 4 THEN {"continuation-line-indented-4"} ELSE {})]
+              \cup (IF LeadSp(r) >= 4 THEN {"continuation-line-indented-4"} ELSE {}) \cup AfterDefsOnly(s, r)]
+    ELSE IF pm THEN [AddLineTo(s, s.tip.node, LStrip(r), L) EXCEPT !.tags = s.tags \cup (IF LeadSp(r) >= 4 THEN {"continuation-line-indented-4"} ELSE {})
+                                                                              \cup AfterDefsOnly(s, r)]
     ELSE LET s0 == IF ~started /\ n < Len(s.open) /\ ~IsBlank(r) THEN [s EXCEPT !.tags = s.tags \cup {"lazy-after-nonpara"}] ELSE s      \* (tip is no paragraph)
              s1 == IF started THEN s0 ELSE CloseTo(s0, n) IN
          IF IsBlank(r) THEN s1
@@ -269,9 +345,11 @@ Starts(s, n, r, pm, L, started) ==
         [AddNode(s1, Node("HtmlBlock", TopNode(s1), L, 0, <<r>>, NoX)) EXCEPT
             !.tip = IF HtmlEnds(ty, r) THEN NoTip ELSE [k |-> "html", node |-> id, f |-> [ch |-> "", n |-> ty, off |-> 0, info |-> ""]],
             !.tags = s1.tags \cup (IF ~started /\ n < Len(s.open) /\ s.tip.k # "para" /\ ty = 7 THEN {"lazy-after-nonpara"} ELSE {})]
-    ELSE IF pm /\ IsSetextUnderline(r) THEN
+    ELSE IF pm /\ IsSetextUnderline(r) /\ ParaRestLines(s.nodes[s.tip.node].text) # << >> THEN      \* (a paragraph of definitions only has no text to underline)
         [s EXCEPT !.nodes[s.tip.node].t = "SetextHeading", !.nodes[s.tip.node].lv = SetextLevel(r), !.nodes[s.tip.node].last = L, !.tip = NoTip,
-                  !.tags = s.tags \cup (IF \E k \in DOMAIN s.open : s.open[k].kind = "quote" THEN {"setext-in-quote"} ELSE {})]
+                  !.tags = s.tags \cup (IF \E k \in DOMAIN s.open : s.open[k].kind = "quote" THEN {"setext-in-quote"} ELSE {})
+                                  \cup (IF ParseDef(RestAfterDefs(ParaText(s.nodes[s.tip.node].text)) \o "\n" \o Trim(r)).ok
+                                        THEN {"underline-would-complete-definition"} ELSE {})]
     ELSE IF IsHr(r) THEN
         LET s1 == PopList(closed) IN AddNode(s1, Node("ThematicBreak", TopNode(s1), L, 0, << >>, NoX))
     ELSE IF IsMarker(r, pm) THEN
@@ -332,7 +410,7 @@ Parse(d) == ParseFrom(Empty, d, 1)
 (* the behaviour: one action per line read.  Exhaustive exploration visits every line sequence up to MaxLines (sharded by the
    first line over parallel TLC processes); simulation mode reads random longer documents *)
 Ordered == SetToSeq(Alphabet)
-ShardOk(l) == IOEnv.SHARD = "-" \/ doc # << >> \/ l = Ordered[ToNat(IOEnv.SHARD)]
+ShardOk(l) == IF IOEnv.SHARD = "-" THEN TRUE ELSE IF doc # << >> THEN TRUE ELSE l = Ordered[ToNat(IOEnv.SHARD)]     \* (no disjunction: TLC would explore each disjunct as an action of its own)
 
 Init == doc = << >> /\ st = Empty
 Feed(l) == /\ Len(doc) < MaxLines /\ ShardOk(l)
@@ -343,15 +421,29 @@ Spec == Init /\ [][Next]_vars
 
 ---------------------------------------------------------------------------
 (* reading the tree *)
-Kids(s, n) == LET S == {i \in DOMAIN s.nodes : s.nodes[i].p = n} IN SetToSortSeq(S, LAMBDA a, b : a < b)
+AllKids(s, n) == LET S == {i \in DOMAIN s.nodes : s.nodes[i].p = n} IN SetToSortSeq(S, LAMBDA a, b : a < b)
+(* the link reference definitions at the beginning of a paragraph are no part of it; a paragraph of definitions only is no block *)
+HasText(nd) == nd.t \in {"Paragraph", "SetextHeading"}
+EffText(nd) == IF HasText(nd) THEN ParaRestLines(nd.text) ELSE nd.text
+EffLn(nd) == IF HasText(nd) THEN nd.ln + (Len(nd.text) - Len(ParaRestLines(nd.text))) ELSE nd.ln
+Visible(nd) == ~(nd.t = "Paragraph" /\ ParaRestLines(nd.text) = << >>)
+Kids(s, n) == SelectSeq(AllKids(s, n), LAMBDA i : Visible(s.nodes[i]))
+
+RECURSIVE DefsFrom(_, _)
+DefsFrom(s, i) == IF i > Len(s.nodes) THEN << >>
+                  ELSE (IF HasText(s.nodes[i]) THEN DefsOf(ParaText(s.nodes[i].text)) ELSE << >>) \o DefsFrom(s, i + 1)
+AllDefs(s) == DefsFrom(s, 1)                                   \* in document order (nodes are created in document order)
+NormLabel(l) == Lower(Trim(l))                                 \* (labels of the alphabets hold no inner whitespace)
+Resolve(D, l) == LET C == {i \in DOMAIN D : NormLabel(D[i].label) = NormLabel(l)} IN IF C = {} THEN 0 ELSE CHOOSE i \in C : \A j \in C : i <= j
+Footnotes(s) == LET D == AllDefs(s) IN [i \in DOMAIN D |-> [base |-> NormLabel(D[i].label), href |-> D[i].dest, title |-> D[i].title, first |-> Resolve(D, D[i].label) = i]]
 
 RECURSIVE End(_, _)
-End(s, n) == LET nd == s.nodes[n] ks == Kids(s, n) IN
+End(s, n) == LET nd == s.nodes[n] ks == AllKids(s, n) IN
              IF nd.t \in {"List", "ListItem"} /\ ks # << >> THEN End(s, ks[Len(ks)]) ELSE IF nd.t \in {"List", "ListItem"} THEN nd.ln ELSE nd.last
 
 (* a list is loose if two of its items, or two blocks directly inside one item, are separated by a blank line *)
 Gap(s, ks) == \E i \in 1..(Len(ks) - 1) : End(s, ks[i]) + 1 # s.nodes[ks[i + 1]].ln
-Loose(s, l) == LET items == Kids(s, l) IN Gap(s, items) \/ \E i \in DOMAIN items : Gap(s, Kids(s, items[i]))
+Loose(s, l) == LET items == AllKids(s, l) IN Gap(s, items) \/ \E i \in DOMAIN items : Gap(s, AllKids(s, items[i]))
 
 RECURSIVE StripTrailingBlank(_)
 StripTrailingBlank(ls) == IF ls # << >> /\ IsBlank(ls[Len(ls)]) THEN StripTrailingBlank(SubSeq(ls, 1, Len(ls) - 1)) ELSE ls
@@ -364,7 +456,7 @@ HtmlOf(s, n, tight) ==
     LET nd == s.nodes[n]
         ks == Kids(s, n)
         inner(t) == Join([k \in DOMAIN ks |-> HtmlOf(s, ks[k], t)], "\n")
-        txt == InlineHtml(RStrip(Join(nd.text, "\n"))) IN
+        txt == InlineHtml(RStrip(Join(EffText(nd), "\n")), AllDefs(s)) IN
     CASE nd.t = "Document"      -> inner(FALSE)
       [] nd.t = "Paragraph"     -> IF tight THEN txt ELSE "<p>" \o txt \o "</p>"
       [] nd.t \in {"Heading", "SetextHeading"} -> "<h" \o NatStr(nd.lv) \o ">" \o txt \o "</h" \o NatStr(nd.lv) \o ">"
@@ -383,12 +475,12 @@ Pre(s, n) == <<n>> \o (LET ks == Kids(s, n) IN
                        LET RECURSIVE Cat(_)
                            Cat(i) == IF i > Len(ks) THEN << >> ELSE Pre(s, ks[i]) \o Cat(i + 1)
                        IN Cat(1))
-LinesOf(s) == LET o == Pre(s, 1) IN [i \in DOMAIN o |-> [t |-> s.nodes[o[i]].t, ln |-> s.nodes[o[i]].ln]]
+LinesOf(s) == LET o == Pre(s, 1) IN [i \in DOMAIN o |-> [t |-> s.nodes[o[i]].t, ln |-> EffLn(s.nodes[o[i]])]]
 
 (* the tree without line numbers: what C04 and C05 compare *)
 RECURSIVE Shape(_, _)
 Shape(s, n) == LET nd == s.nodes[n] ks == Kids(s, n) IN
-               [t |-> nd.t, lv |-> nd.lv, text |-> IF nd.t \in {"BlockCode", "HtmlBlock"} THEN StripTrailingBlank(nd.text) ELSE nd.text, x |-> nd.x,
+               [t |-> nd.t, lv |-> nd.lv, text |-> IF nd.t \in {"BlockCode", "HtmlBlock"} THEN StripTrailingBlank(nd.text) ELSE EffText(nd), x |-> nd.x,
                 loose |-> IF nd.t = "List" THEN Loose(s, n) ELSE FALSE, c |-> [k \in DOMAIN ks |-> Shape(s, ks[k])]]
 
 ---------------------------------------------------------------------------
@@ -408,18 +500,20 @@ Nested == \A i \in 2..Len(st.nodes) : st.nodes[st.nodes[i].p].ln <= st.nodes[i].
 (* design-level laws, checked on every document *)
 Quoted(d) == [i \in DOMAIN d |-> "> " \o d[i]]
 (* C04 (block quotes): putting "> " before every line wraps the parse in one block quote *)
+LawsOn == IOEnv.LAWS # "off"        \* (C13 re-reads the same documents for their line numbers only)
 QuoteLaw ==
-    doc # << >> =>
+    (LawsOn /\ doc # << >>) =>
         LET q == Parse(Quoted(doc)) ks == Kids(q, 1) IN
         /\ Len(ks) = 1 /\ q.nodes[ks[1]].t = "Quote"
         /\ [k \in DOMAIN Kids(q, ks[1]) |-> Shape(q, Kids(q, ks[1])[k])] = [k \in DOMAIN Kids(st, 1) |-> Shape(st, Kids(st, 1)[k])]
+        /\ AllDefs(q) = AllDefs(st)
 
 (* C04 (lists): a list marker of width 2 before the first line (which starts with a non-space character) and two spaces before
    every other non-blank line wrap the parse in one single-item list - unless marker and first line together read as a
    thematic break ("- " before "- -"), the coincidence the specification resolves the other way *)
 Itemised(d) == [i \in DOMAIN d |-> IF i = 1 THEN "- " \o d[1] ELSE IF IsBlank(d[i]) THEN d[i] ELSE "  " \o d[i]]
 ListLaw ==
-    (doc # << >> /\ doc[1] # "" /\ Ch(doc[1], 1) # " " /\ ~IsHr("- " \o doc[1]) /\ ~IsBlank(doc[Len(doc)])) =>
+    (LawsOn /\ doc # << >> /\ doc[1] # "" /\ Ch(doc[1], 1) # " " /\ ~IsHr("- " \o doc[1]) /\ ~IsBlank(doc[Len(doc)])) =>
         LET q == Parse(Itemised(doc)) ks == Kids(q, 1) IN
         /\ Len(ks) = 1 /\ q.nodes[ks[1]].t = "List"
         /\ Len(Kids(q, ks[1])) = 1
@@ -430,15 +524,21 @@ ListLaw ==
 EndsClosed(s) == LET ks == Kids(s, 1) IN ks # << >> /\ s.nodes[ks[Len(ks)]].t \in {"Paragraph", "Heading", "SetextHeading", "ThematicBreak", "Quote"}
                  /\ s.tip.k \notin {"html", "fence"}
 ConcatLaw ==
-    doc # << >> =>
+    (LawsOn /\ doc # << >>) =>
         \A b \in Alphabet :
-            (EndsClosed(st) /\ ~IsBlank(doc[Len(doc)])) =>
+            (EndsClosed(st) /\ ~IsBlank(doc[Len(doc)]) /\ AllDefs(Parse(doc \o <<"", b>>)) = << >>) =>          \* (C05: neither part defines link references)
                 LET ab == Parse(doc \o <<"", b>>) pb == Parse(<<b>>) IN
                 [k \in DOMAIN Kids(ab, 1) |-> Shape(ab, Kids(ab, 1)[k])]
                     = [k \in DOMAIN Kids(st, 1) |-> Shape(st, Kids(st, 1)[k])] \o [k \in DOMAIN Kids(pb, 1) |-> Shape(pb, Kids(pb, 1)[k])]
 
+(* whether definitions standing directly in a list item (a paragraph that leaves no text) take part in "two blocks with a blank
+   line between them" is not settled by the specification text: such documents are tagged and not judged *)
+ExportTags(s) == IF \E i \in DOMAIN s.nodes : HasText(s.nodes[i]) /\ DefsOf(ParaText(s.nodes[i].text)) # << >> /\ s.nodes[s.nodes[i].p].t = "ListItem"
+                 THEN {"unsettled-definition-in-list-item"} ELSE {}
+
 StateIsParse == st = Parse(doc)        \* the step-by-step reading is the function Parse (used by the laws on transformed documents)
 
 Export == doc # << >> =>
-    PrintT(ToJson([src |-> Join(doc, "\n") \o "\n", html |-> HtmlOf(st, 1, FALSE), lines |-> LinesOf(st), defs |-> << >>, tags |-> st.tags, nblocks |-> Len(st.nodes) - 1]))
+    PrintT(ToJson([src |-> Join(doc, "\n") \o "\n", html |-> HtmlOf(st, 1, FALSE), lines |-> LinesOf(st), defs |-> Footnotes(st),
+                   tags |-> st.tags \cup ExportTags(st), nblocks |-> Len(st.nodes) - 1]))
 =============================================================================
